@@ -1,0 +1,16 @@
+//go:build verif
+
+// Contracts for package raster/vec, checked by /verif/govc. Comment-only file: with the
+// build tag off it does not exist for the compiler.
+
+package vec
+
+// Draw (C16): the configured operator is handed to the inner rasteriser for this one call, together with the
+// destination image and the caller's rectangle, paint and paint origin; afterwards the operator is draw.Over (0).
+// What golang.org/x/image/vector then does with them is outside these contracts.
+//@ contract (*Rasterizer).Draw
+//@   modifies z.Rasterizer z.DrawOp
+//@   at call Draw assert [C16.vec.op-copied] (= z.Rasterizer.DrawOp (old z.DrawOp))
+//@   at call Draw assert [C16.vec.args] (and (= arg1 z.Dst) (= arg2 r) (= arg3 src) (= arg4 sp))
+//@   ensures [C16.vec.reverts-to-over] (= z.DrawOp (int 0))
+//@   ensures [C16.vec.dst-kept] (= z.Dst (old z.Dst))
